@@ -27,7 +27,8 @@ Inductive revent :=
 | EvAdd (v : bytes) (idx : Z)
 | EvRemove (v : bytes) (idx : Z)                    (* v: the removed id (ResultEvent.Value) *)
 | EvChange (ch : list (bytes * option bytes))       (* None = res.DeleteAction *)
-| EvOther.                                          (* any other event name *)
+| EvOther                                           (* any other event name *)
+| EvBad (is_add : bool) (idx : Z).                  (* an add / remove event whose Value is not a string *)
 
 (* ---- the QueryStore the handler reads ---- *)
 Record qstore (St C Q : Type) := QS {
@@ -68,6 +69,15 @@ Definition transform_events (tr : qtrans) (evs : list revent) : list revent :=
   | TrNone => evs
   | TrColl f => map (fun e => match e with EvAdd v i => EvAdd (f v) i | _ => e end) evs
   | TrModel f => match evs with [] => [] | _ => [EvChange (model_changes f evs)] end
+  end.
+
+(* the type assertions of TransformEvents: IDToRIDCollectionTransformer needs
+   string values in add events, IDToRIDModelTransformer in add and remove events *)
+Definition events_transformable (tr : qtrans) (evs : list revent) : bool :=
+  match tr with
+  | TrNone => true
+  | TrColl _ => forallb (fun e => match e with EvBad true _ => false | _ => true end) evs
+  | TrModel _ => forallb (fun e => match e with EvBad _ _ => false | _ => true end) evs
   end.
 
 (* ---- the handler ---- *)
@@ -148,7 +158,7 @@ Fixpoint send_events (rid : bytes) (evs : list revent) : list pub * hstatus :=
   | [] => ([], HOk)
   | e :: r =>
     match e with
-    | EvAdd _ idx | EvRemove _ idx =>
+    | EvAdd _ idx | EvRemove _ idx | EvBad _ idx =>
       match h_type h with
       | TModel => ([], HPanic)
       | TCollection =>
@@ -176,7 +186,9 @@ Definition resource_event (c : C) (rid : bytes) : list pub * hstatus :=
       if reset then ([PReset rid], HOk)
       else match evs with
            | [] => ([], HOk)
-           | _ => send_events rid (transform_events (h_trans h) evs)
+           | _ => if events_transformable (h_trans h) evs
+                  then send_events rid (transform_events (h_trans h) evs)
+                  else ([], HError)                      (* "error transforming events" *)
            end
     end
   end.
@@ -215,7 +227,7 @@ Fixpoint response_events (evs : list revent) : option (list revent) :=
   | [] => Some []
   | e :: r =>
     match e with
-    | EvAdd _ idx | EvRemove _ idx =>
+    | EvAdd _ idx | EvRemove _ idx | EvBad _ idx =>
       match h_type h with
       | TModel => None
       | TCollection => if (idx <? 0)%Z then None
@@ -247,10 +259,12 @@ Definition query_request (st_now : St) (c : C) (rid cq : bytes) : qresp :=
           match get_result st_now q with Some v => QRValue (h_type h) v | None => QRErr end
         else match evs with
              | [] => QREvents []
-             | _ => match response_events (transform_events (h_trans h) evs) with
-                    | Some l => QREvents l
-                    | None => QRErr
-                    end
+             | _ => if events_transformable (h_trans h) evs then
+                      match response_events (transform_events (h_trans h) evs) with
+                      | Some l => QREvents l
+                      | None => QRErr
+                      end
+                    else QRErr                            (* panic(err), recovered: error response *)
              end
       end
     end
